@@ -24,6 +24,7 @@ type C09 struct {
 	Seed   []engine.Op
 	Seeds  [][]engine.Op // further start states
 	Extra  bool // jailing before BeginBlocker, observed signer sets, long quiet periods
+	ParamChains []string // when set: the Chains parameter (order matters to nobody: every listed external chain is served)
 }
 
 func NewC09(n int) *C09 {
@@ -39,6 +40,11 @@ func (c *C09) Setup(in *hub.Instance)   { in.AnteSeq = true }
 func (c *C09) SeedPaths() [][]engine.Op { return append([][]engine.Op{c.Seed}, c.Seeds...) }
 func (c *C09) Genesis() hub.Genesis {
 	g := hub.Genesis{Hub: *mhubtypes.DefaultGenesisState(), Oracle: *oracletypes.DefaultGenesisState()}
+	if c.ParamChains != nil {
+		p := *g.Hub.Params
+		p.Chains = append([]string{}, c.ParamChains...)
+		g.Hub.Params = &p
+	}
 	for _, v := range c.Vals {
 		g.Accounts = append(g.Accounts, v.Acc, v.Orch)
 		g.Staking = append(g.Staking, hub.ValState{Oper: v.Oper.String(), Bonded: true, Power: 1})
@@ -208,7 +214,16 @@ func (c *C09) begin(in *hub.Instance, g *c09Ghost, st *engine.Step) {
 	}
 	ctx := in.Ctx()
 	max32 := new(big.Int).SetUint64(1<<32 - 1)
-	for _, ch := range AllExtChains {
+	chains := AllExtChains
+	if c.ParamChains != nil {
+		chains = nil
+		for _, ch := range c.ParamChains {
+			if ch != "hub" {
+				chains = append(chains, ch)
+			}
+		}
+	}
+	for _, ch := range chains {
 		chain := mhubtypes.ChainID(ch)
 		// reference: bonded validators with a key on this chain
 		type mem struct {
@@ -329,6 +344,19 @@ func c09Extra() *C09 {
 	return c
 }
 
+// c09Order: the Chains parameter lists the pseudo chain "hub" before an external chain.
+func c09Order(chains []string) *C09 {
+	c := NewC09(3)
+	c.ParamChains = chains
+	c.Chains = nil
+	for _, ch := range chains {
+		if ch != "hub" {
+			c.Chains = append(c.Chains, ch)
+		}
+	}
+	return c
+}
+
 func init() {
 	Register("C09", MultiRunner(func(tier string) ([]MultiCase, []string) {
 		d3, d4, dl := 5, 4, 60*time.Second
@@ -340,6 +368,8 @@ func init() {
 				{Name: "4 validators", Spec: NewC09(4), Cfg: engine.Config{MaxDepth: d4, Deadline: dl, ReplayLeaf: 20}},
 				{Name: "1 validator", Spec: NewC09(1), Cfg: engine.Config{MaxDepth: d3 + 1, Deadline: dl, ReplayLeaf: 20}},
 				{Name: "3 validators with keys: jailing before BeginBlocker, observed sets, quiet periods", Spec: c09Extra(), Cfg: engine.Config{MaxDepth: d4, Deadline: dl, ReplayLeaf: 20}},
+				{Name: "Chains parameter in another order: hub, minter, ethereum", Spec: c09Order([]string{"hub", "minter", "ethereum"}), Cfg: engine.Config{MaxDepth: d4 - 1, Deadline: dl, ReplayLeaf: 20}},
+				{Name: "Chains parameter in another order: ethereum, hub, bsc", Spec: c09Order([]string{"ethereum", "hub", "bsc"}), Cfg: engine.Config{MaxDepth: d4 - 1, Deadline: dl, ReplayLeaf: 20}},
 			}, []string{
 				"stakes {1,2,10^6,2^40} (ties, one dominant validator), bond/unbond, key registration per chain through the real MsgDelegateKeys; all validators start bonded with stake 1 and no keys",
 				"a published set is checked in the BeginBlocker that publishes it; the 5% rule is checked after every BeginBlocker with exact integers",
